@@ -14,7 +14,7 @@ from typing import Any
 
 from common import CompResult, Disagreement, Violation, h, run_driver, show_nat_list
 
-RUNNING, WAITING, INPROTO, DONE = "running", "waiting", "inproto", "done"
+RUNNING, WAITING, INPROTO, DONE, LOCKWAIT = "running", "waiting", "inproto", "done", "lockwait"
 
 
 class Ctl:
@@ -87,15 +87,32 @@ class FakeRLock:
         self.depth: dict[int, int] = {}
 
     def __enter__(self) -> "FakeRLock":
-        self.lock.acquire()
         me = threading.get_ident()
+        if me == self.ctl.main_ident and not self.lock.acquire(blocking=False):
+            # the receiver thread is inside its critical section: the main thread waits for the lock
+            self.ctl.set(LOCKWAIT)
+            self.lock.acquire()
+        elif me != self.ctl.main_ident:
+            self.lock.acquire()
         self.depth[me] = self.depth.get(me, 0) + 1
+        if (self.depth[me] == 1 and self.ctl.preempt and me != self.ctl.main_ident and self.ctl.main_ident is not None
+                and self.ctl.inject is not None and self.ctl.inject[0] == 0):
+            # pre-emption point *inside* the receiver's critical section: the main thread is let go and runs until it
+            # blocks -- on this very lock if it wants the queue
+            stop = self.ctl.inject[1]
+            self.ctl.inject = None
+            if self.ctl.release(stop):
+                self.ctl.settle()
         return self
 
     def __exit__(self, *a: Any) -> None:
         me = threading.get_ident()
         self.depth[me] -= 1
         outer = self.depth[me] == 0
+        if outer and me != self.ctl.main_ident:
+            with self.ctl.cv:
+                if self.ctl.state == LOCKWAIT:
+                    self.ctl.state = RUNNING      # the waiting main thread is about to get the lock
         self.lock.release()
         if outer and self.ctl.preempt and me != self.ctl.main_ident and self.ctl.main_ident is not None:
             # let the main thread run until it blocks again
@@ -364,7 +381,7 @@ def gen(rng: random.Random, res: CompResult) -> tuple[list[str], list[str]]:
                     if req and rng.random() < 0.5:
                         req.append(req[0])   # duplicate in the request
                     res.hit("steal:random")
-                inj = f" @{rng.choice([1, 1, 2])} 0" if rng.random() < 0.5 else ""
+                inj = f" @{rng.choice([0, 0, 1, 1, 2])} 0" if rng.random() < 0.6 else ""
                 do(f"steal {show_nat_list(req)}{inj}")
             elif r < 0.62:
                 do("shutdown")
@@ -423,8 +440,9 @@ def monitors(ops: list[str], impl: list[str], res: CompResult) -> None:
 
     over = (Counter(ran_idx) + Counter(stolen)) - Counter(received)
     if over:
-        what = f"index(es) {sorted(over)} reported as withdrawn and also started (or withdrawn twice)"
-        for p in ("C07", "C05"):
+        what = (f"index(es) {sorted(over)} reported as withdrawn and also started (or withdrawn twice): the controller hands them to "
+                "another worker, they run twice")
+        for p in ("C07", "C05", "C01"):
             res.violations.append(Violation(p, "worker.queue", what, "stolen-and-started", ops,
                                             {"ran": ran_idx, "stolen": stolen, "received": received}))
 
